@@ -2,8 +2,9 @@ import Smtb.Circuit.Api
 /-!
 # Trace interpretation (core only)
 
-Prints one line per `frontend.API` call, in the format of the Go recorder
-(`/verif/harness/recorder`).  Wires are numbered in order of creation, inputs first.
+Records one structured line (`TLine`) per `frontend.API` call; `TLine.render` prints it in the
+format of the Go recorder (`/verif/harness/recorder`).  Wires are numbered in order of creation,
+inputs first.  The structured form is what `Smtb/Proofs/TraceSound.lean` gives a semantics to.
 -/
 namespace Smtb
 
@@ -11,22 +12,57 @@ namespace Smtb
 inductive TV where
   | c (n : Nat)
   | v (id : Nat)
-deriving Repr, BEq, Inhabited
+deriving Repr, BEq, Inhabited, DecidableEq
 
 def TV.str : TV → String
   | .c n => "c:" ++ toString n
   | .v i => "v" ++ toString i
 
+/-- one recorded API call -/
+inductive TLine where
+  /-- `v<res> = <op> args…` for add, sub, mul, select, iszero, or, xor, and -/
+  | op (res : Nat) (name : String) (args : List TV)
+  /-- `v<first>+<n> = tobinary a` -/
+  | toBinary (first n : Nat) (a : TV)
+  /-- `v<res> = frombinary bs…` -/
+  | fromBinary (res : Nat) (bs : List TV)
+  | assertBool (a : TV)
+  | assertEq (a b : TV)
+  /-- an opaque gadget with a scalar result: `v<res> = call Name params | args` -/
+  | call1 (res : Nat) (name : String) (params : List Nat) (args : List TV)
+  /-- an opaque gadget with `n` results -/
+  | callN (first n : Nat) (name : String) (params : List Nat) (args : List TV)
+  /-- free text (`ret …`, `error …`) -/
+  | text (s : String)
+deriving Repr, Inhabited
+
+def natList (l : List Nat) : String := l.foldl (fun s a => s ++ " " ++ toString a) ""
+def tvList (l : List TV) : String := l.foldl (fun s a => s ++ " " ++ a.str) ""
+
+def TLine.render : TLine → String
+  | .op r name args => "v" ++ toString r ++ " = " ++ name ++ tvList args
+  | .toBinary f n a => "v" ++ toString f ++ "+" ++ toString n ++ " = tobinary " ++ a.str
+  | .fromBinary r bs => "v" ++ toString r ++ " = frombinary" ++ tvList bs
+  | .assertBool a => "assertbool " ++ a.str
+  | .assertEq a b => "asserteq " ++ a.str ++ " " ++ b.str
+  | .call1 r name params args => "v" ++ toString r ++ " = call " ++ name ++ natList params ++ " |" ++ tvList args
+  | .callN f n name params args =>
+      "v" ++ toString f ++ "+" ++ toString n ++ " = call " ++ name ++ natList params ++ " |" ++ tvList args
+  | .text s => s
+
 structure TState where
   next : Nat := 0
-  out : String := ""
+  /-- recorded lines, most recent first -/
+  lines : List TLine := []
   opaqueNames : List String := []
 
 abbrev TraceM := StateM TState
 
 namespace TraceM
 
-def emit (s : String) : TraceM Unit := modify fun st => { st with out := (st.out ++ s).push '\n' }
+def emitLine (l : TLine) : TraceM Unit := modify fun st => { st with lines := l :: st.lines }
+
+def emit (s : String) : TraceM Unit := emitLine (.text s)
 
 def fresh : TraceM TV := do
   let st ← get
@@ -39,14 +75,21 @@ def freshN (n : Nat) : TraceM (List TV) := do
   pure ((List.range n).map fun i => .v (st.next + i))
 
 def op (name : String) (args : List TV) : TraceM TV := do
-  let r ← fresh
-  emit (r.str ++ " = " ++ name ++ args.foldl (fun s a => s ++ " " ++ a.str) "")
-  pure r
+  let st ← get
+  set { st with next := st.next + 1, lines := .op st.next name args :: st.lines }
+  pure (.v st.next)
 
-def natList (l : List Nat) : String := l.foldl (fun s a => s ++ " " ++ toString a) ""
-def tvList (l : List TV) : String := l.foldl (fun s a => s ++ " " ++ a.str) ""
+def natList := Smtb.natList
+def tvList := Smtb.tvList
 
 end TraceM
+
+/-- the recorded lines in order of emission -/
+def TState.trace (st : TState) : List TLine := st.lines.reverse
+
+/-- the text the Go recorder prints for the same calls -/
+def TState.out (st : TState) : String :=
+  st.trace.foldl (fun s l => (s ++ l.render).push '\n') ""
 
 open TraceM in
 instance : CircuitApi TraceM TV where
@@ -61,28 +104,25 @@ instance : CircuitApi TraceM TV where
   and_ a b := op "and" [a, b]
   toBinary a n := do
     let st ← get
-    let rs ← freshN n
-    emit ("v" ++ toString st.next ++ "+" ++ toString n ++ " = tobinary " ++ a.str)
-    pure rs
+    set { st with next := st.next + n, lines := .toBinary st.next n a :: st.lines }
+    pure ((List.range n).map fun i => .v (st.next + i))
   fromBinary bs := do
-    let r ← fresh
-    emit (r.str ++ " = frombinary" ++ tvList bs)
-    pure r
-  assertBool a := emit ("assertbool " ++ a.str)
-  assertEq a b := emit ("asserteq " ++ a.str ++ " " ++ b.str)
+    let st ← get
+    set { st with next := st.next + 1, lines := .fromBinary st.next bs :: st.lines }
+    pure (.v st.next)
+  assertBool a := emitLine (.assertBool a)
+  assertEq a b := emitLine (.assertEq a b)
   opaque1 name params args body := do
     let st ← get
     if st.opaqueNames.contains name then
-      let r ← fresh
-      emit (r.str ++ " = call " ++ name ++ natList params ++ " |" ++ tvList args)
-      pure r
+      set { st with next := st.next + 1, lines := .call1 st.next name params args :: st.lines }
+      pure (.v st.next)
     else body
   opaqueN name params args n body := do
     let st ← get
     if st.opaqueNames.contains name then
-      let rs ← freshN n
-      emit ("v" ++ toString st.next ++ "+" ++ toString n ++ " = call " ++ name ++ natList params ++ " |" ++ tvList args)
-      pure rs
+      set { st with next := st.next + n, lines := .callN st.next n name params args :: st.lines }
+      pure ((List.range n).map fun i => .v (st.next + i))
     else body
 
 end Smtb
